@@ -208,6 +208,9 @@ func TestSleepAndQuiescent(t *testing.T) {
 
 // The state cache must not change the set of observable outcomes.
 func TestCacheSoundOnToy(t *testing.T) {
+	if testing.Short() {
+		t.Skip("3-thread uncached exploration takes ~1 min")
+	}
 	mk := func(nocache bool) *vs.Scenario {
 		return &vs.Scenario{Name: "toy3", NoCache: nocache, Bounds: vs.Bounds{P: -1}, Body: func() {
 			var x, y int32
@@ -248,5 +251,33 @@ func TestCacheSoundOnToy(t *testing.T) {
 	t.Logf("nocache exec=%d, cache exec=%d pruned=%d states=%d, outcomes=%d", a.Executions, b.Executions, b.Pruned, b.States, len(oa))
 	if b.Executions >= a.Executions {
 		t.Fatalf("cache did not reduce the search")
+	}
+}
+
+// A select whose send case (index 2) is completed as the passive partner of a
+// rendezvous must report index 2, not 0.
+func TestSelectPartnerCaseIndex(t *testing.T) {
+	sc := &vs.Scenario{Name: "partner", Bounds: vs.Bounds{P: -1}, Body: func() {
+		never1 := make(chan int)
+		never2 := make(chan int)
+		ch := make(chan int)
+		got := make(chan int, 1)
+		vs.Go(func() {
+			switch i := vs.Select(false, vs.RecvCase[int](never1), vs.RecvCase[int](never2), vs.SendCase(ch, 7)); i {
+			case 2:
+				vs.SelSend(ch, 7)
+				vs.Send(got, 2)
+			default:
+				vs.Send(got, i)
+			}
+		})
+		v := vs.Recv[int](ch)
+		idx := vs.Recv[int](got)
+		vs.Observe("v=%d idx=%d", v, idx)
+	}}
+	r := vs.Explore(sc, 0, 1)
+	o := outcomes(r)
+	if len(o) != 1 || o["completed|v=7 idx=2"] == 0 {
+		t.Fatalf("%v", o)
 	}
 }
